@@ -294,6 +294,9 @@ func firstLine(s string) string {
 }
 
 func (r *runner) coresOf(proc string) int {
+	if p := r.spec.proc(proc); p != nil && p.ZeroCores {
+		return 0
+	}
 	if p := r.spec.proc(proc); p != nil && p.Cores > 0 {
 		return p.Cores
 	}
